@@ -453,6 +453,9 @@ func (w *c07World) advance() error {
 			return err
 		}
 		id = bc.ID()
+		if err := blkfx.WaitTxLocators(nd.Chain.Database(), blkfx.TxIDs(bc.NormalTransactions())); err != nil {
+			return err
+		}
 		bc.Dispose()
 	}
 	w.chain = append(w.chain, fmt.Sprintf("%x", id))
